@@ -182,6 +182,7 @@ func c13Epochs(thorough bool) []int64 {
 
 var (
 	c13Dates    = MustCompile(`[[(todate | fromdate), (gmtime | mktime), (todate | strptime("%Y-%m-%dT%H:%M:%SZ") | mktime), (gmtime | todate | fromdate)], [., ., ., .]]`)
+	c13Split     = MustCompile(`[split($s), (. / $s)]`, gojq.WithVariables([]string{"$s"}))
 	c13SplitJoin = MustCompile(`[(split($s) | join($s)), .]`, gojq.WithVariables([]string{"$s"}))
 )
 
@@ -241,7 +242,50 @@ func c13Run(c *engine.Ctx) {
 		}
 		c.DistinctN(int64(len(strs)))
 	}
-	c.Sample(map[string]any{"law": "split($s)|join($s) for every non-empty $s", "strings": len(strs)})
+	// separators that overlap themselves: every string of length <= 6 over {a, b, é} by every separator of length 1..3
+	sigma := []string{"a", "b", "é"}
+	words := []string{""}
+	for l, prev := 1, []string{""}; l <= 6; l++ {
+		var next []string
+		for _, p := range prev {
+			for _, x := range sigma {
+				next = append(next, p+x)
+			}
+		}
+		words = append(words, next...)
+		prev = next
+	}
+	wi := 0
+	for _, sep := range words {
+		if n := len([]rune(sep)); n < 1 || n > 3 {
+			continue
+		}
+		wi++
+		if !c.MineIdx(wi) {
+			continue
+		}
+		for _, in := range words {
+			c.Eval()
+			if msg := c13Check(c13SplitJoin, in, sep); msg != "" {
+				c.Violation(fmt.Sprintf("split-join\t%q by %q", in, sep), "inverse-law", map[string]any{"law": "split(s)|join(s)", "input": univ.ToTagged(in), "sep": univ.ToTagged(sep), "why": msg})
+			}
+			// the pieces are the ones a leftmost non-overlapping scan gives
+			want := strings.Split(in, sep)
+			if in == "" {
+				want = []string{}
+			}
+			got, bad := single(RunCode(c13Split, in, DefaultBudget, sep))
+			wa := make([]any, len(want))
+			for i, w := range want {
+				wa[i] = w
+			}
+			if bad != "" || !univ.Equal(got, []any{wa, wa}) {
+				c.Violation(fmt.Sprintf("split\t%q by %q", in, sep), "inverse-law", map[string]any{"law": "split(s)", "input": univ.ToTagged(in), "sep": univ.ToTagged(sep), "why": fmt.Sprintf("%q | [split(%q), . / %q] = %s %s, the leftmost non-overlapping pieces are %q", in, sep, sep, univ.Repr(got), bad, want)})
+			}
+		}
+		c.DistinctN(int64(len(words)))
+	}
+	c.Sample(map[string]any{"law": "split($s)|join($s) for every non-empty $s", "strings": len(strs), "overlapping": "every string of length <= 6 over {a, b, é} by every separator of length 1..3; pieces compared with a leftmost non-overlapping scan"})
 
 	c.Sub("dates")
 	ep := c13Epochs(true)
@@ -330,7 +374,7 @@ func init() {
 	engine.Register(&engine.Check{
 		ID:    "C13",
 		Level: "exploration",
-		Rule: "every value of the builtin universe extended with objects over empty/multi-byte/escape-needing keys, empty containers at every position and strings over the C12 byte alphabet x 15 inverse-pair laws, each evaluated through the public API as a jq program returning (lhs, rhs) and compared with the harness's own structural equality (gojq's == is not trusted); split(s)|join(s) for every (string, non-empty separator) pair of the universe; todate|fromdate, gmtime|mktime (and two mixed compositions) on every epoch of a boundary set (+-1 s around day/month/leap/year/century boundaries of ~50 years between 1 and 9999, +-10^k, int32/uint32 limits, a regular grid over the whole range) in three number representations; tostring|tonumber and tojson|fromjson on the C10 integer set in every representation and on the float classes. Every case is distinct by construction.",
+		Rule: "every value of the builtin universe extended with objects over empty/multi-byte/escape-needing keys, empty containers at every position and strings over the C12 byte alphabet x 15 inverse-pair laws, each evaluated through the public API as a jq program returning (lhs, rhs) and compared with the harness's own structural equality (gojq's == is not trusted); split(s)|join(s) for every (string, non-empty separator) pair of the universe and for every string of length <= 6 over {a, b, é} by every separator of length 1..3 (self-overlapping separators; pieces compared with a leftmost non-overlapping scan); todate|fromdate, gmtime|mktime (and two mixed compositions) on every epoch of a boundary set (+-1 s around day/month/leap/year/century boundaries of ~50 years between 1 and 9999, +-10^k, int32/uint32 limits, a regular grid over the whole range) in three number representations; tostring|tonumber and tojson|fromjson on the C10 integer set in every representation and on the float classes. Every case is distinct by construction.",
 		Assume:         []string{"domains are those of the statement (valid UTF-8 strings for explode/implode and @uri, finite numbers for tostring|tonumber, whole seconds within years 1-9999 for dates)"},
 		Run:            c13Run,
 		Replay:         c13Replay,
